@@ -2609,7 +2609,7 @@ bool BW_MidiSequencer::parseRSXX(FileAndMemReader &fr)
 
         // Read track data
         rawTrackData[tk].resize(trackLength);
-        fsize = fr.read(&rawTrackData[tk][0], 1, trackLength);
+        fsize = fr.read(rawTrackData[tk].data(), 1, trackLength);
         if(fsize < trackLength)
         {
             m_errorString = fr.fileName() + ": Unexpected file ending while getting raw track data!\n";
@@ -2735,7 +2735,7 @@ bool BW_MidiSequencer::parseCMF(FileAndMemReader &fr)
 
         // Read track data
         rawTrackData[tk].resize(trackLength);
-        fsize = fr.read(&rawTrackData[tk][0], 1, trackLength);
+        fsize = fr.read(rawTrackData[tk].data(), 1, trackLength);
         if(fsize < trackLength)
         {
             m_errorString = fr.fileName() + ": Unexpected file ending while getting raw track data!\n";
@@ -2804,7 +2804,7 @@ bool BW_MidiSequencer::parseGMF(FileAndMemReader &fr)
 
         // Read track data
         rawTrackData[tk].resize(trackLength);
-        fsize = fr.read(&rawTrackData[tk][0], 1, trackLength);
+        fsize = fr.read(rawTrackData[tk].data(), 1, trackLength);
         if(fsize < trackLength)
         {
             m_errorString = fr.fileName() + ": Unexpected file ending while getting raw track data!\n";
